@@ -1,7 +1,8 @@
 (** Model of deepdiff/search.py (class DeepSearch) over [xvalue]: the shared value
     universe of Base/Value.v (embedded by [inj]) extended with class instances
     ([XObj]: __dict__ / __slots__ objects, bound methods), named tuples ([XNamed]) and
-    objects whose attributes cannot be read ([XOpaque]: the `unprocessed` list).
+    objects whose attributes cannot be read ([XOpaque]: the `unprocessed` list), number-like leaves
+    outside the atoms ([XNum]) and back references of cyclic objects ([XRef]).
     The searched ITEM stays a [value].  Definitions only.
 
     The model follows the code, defects included:
